@@ -19,7 +19,15 @@ fn resp(toks: &[&str]) -> String {
     let rest = &toks[1 + used..];
     let pend: u32 = rest[1].parse().unwrap();
     let mut writer = ScriptWriter::new(parse_wsched(rest[0]), None, true, pend & 2 != 0);
-    let res = futures_lite::future::block_on(write_http_response(&mut writer, &built.response, close));
+    // through the byte counter HttpConn::write_response puts in front of the socket (it must be transparent)
+    let (res, counted) = {
+        let mut counter = servlin::internal::AsyncWriteCounter::new(&mut writer);
+        let res = futures_lite::future::block_on(write_http_response(&mut counter, &built.response, close));
+        (res, counter.num_bytes_written())
+    };
+    if counted != writer.out.len() as u64 {
+        return format!("counter-says-{counted}-sink-took-{}", writer.out.len());
+    }
     let r = match &res {
         Ok(()) => "ok".to_string(),
         Err(e) => respcase::err_name(e),
